@@ -448,6 +448,23 @@ PersistPredict(rk, rt, f) ==
 \* routes whose persisted form carries the symbol table
 CarriesTable(rt) == IsPickle(rt) \/ rt = "hdf5"
 
+\* ===================================================== total side: parsing history
+\* What a string denotes in a registry - and whether it is a unit at all - is a function of the string and of the
+\* registry's contents, not of the strings that registry happened to parse before (Unit.__new__ keeps a per-registry
+\* string -> Unit memo, consulted when a registry is given explicitly or through a quantity).  A case is a token
+\* sequence rendered with a joiner, tested in a COLD registry (fresh) and in a WARM one that has first parsed the
+\* neighbouring spellings of the same tokens:
+\*   "joiners"  the sequence under every other joiner (so "m s" is tested after "ms", "m\ts", "m  s")
+\*   "case"     lower / upper / swapped / title case of the string
+\*   "pad"      stripped, padded with blanks, wrapped in parentheses, with a trailing operator dropped
+\* through three call forms: Unit(s, registry=r), unyt_quantity(1, s, registry=r), unyt_quantity(3, "s", registry=r).to(s).
+HToks == << "m", "s", "k", "P", "a", "in", "1", "0", "*", "/", "**", "(", ")" >>
+HJoiners == << " ", "", "\t" >>
+HWarm == << "joiners", "case", "pad" >>
+HText(seq, j) == LET RECURSIVE Go(_)
+                     Go(i) == IF i > Len(seq) THEN "" ELSE (IF i > 1 THEN HJoiners[j] ELSE "") \o HToks[seq[i]] \o Go(i + 1)
+                 IN Go(1)
+
 \* ================================================================ property C20
 \* --- totality: for any string, Unit(s) succeeds or raises UnitParseError; nothing foreign is evaluated.
 \* `o` = observed outcome ("Ok", an exception class name, or "Hang"); `ev` = foreign things the evaluated
@@ -487,5 +504,8 @@ C20_PersistEqual(w, r) == r.o = "Ok" /\ r.dim = w.dim /\ r.off = w.off /\ r.sc =
 C20_Persist(rk, rt, w, r) ==
   IF CarriesTable(rt) THEN C20_PersistEqual(w, r)
   ELSE (rt = "savetxt" /\ Revalued(rk)) \/ r.o = "Raise" \/ C20_PersistEqual(w, r)
+\* --- history freedom: the warm registry gives the outcome, dimension, offset and scale the cold one gives
+\* (`w.sc`: harness tolerance match of the two scales); for the two constructor forms the outcome is total as well.
+C20_HistoryFree(c, w) == w.o = c.o /\ (c.o = "Ok" => w.dim = c.dim /\ w.off = c.off /\ w.sc)
 C20_RoundTripIdentical(u, r) == u.cf => (r.o = "Ok" /\ r.same /\ r.hash /\ r.vec = u.vec /\ r.coef = u.coef)
 =============================================================================
